@@ -65,8 +65,18 @@ class InstHooks(ConnectHooks):
 def rule_check_then_create(ctx):
     prog = ctx.prog
     ctx.analysed("instance.FakeSnow.__init__", "instance.FakeSnow.connect", "conn.FakeSnowflakeConnection.__init__")
-    pt = Point(True, "user", True, True, False, False, False)
+    n = 0
+    # every instance configuration x catalog state in which connect creates something shared
+    configs = [(True, True, False, False), (True, True, True, False), (False, True, True, False), (True, False, False, False)]
+    for cd, cs, db0, schema0 in configs:
+        n += _check_then_create_at(ctx, Point(True, "user", cd, cs, False, db0, schema0))
+    ctx.floor("check-then-create sites on the auto-create paths", n, 5)
+
+
+def _check_then_create_at(ctx, pt) -> int:
+    prog = ctx.prog
     hooks = []
+    where = f"FakeSnow(create_database_on_connect={pt.create_database}, create_schema_on_connect={pt.create_schema}), database {'exists' if pt.db0 else 'absent'}"
 
     def fac():
         h = InstHooks(pt)
@@ -74,7 +84,8 @@ def rule_check_then_create(ctx):
         return h
 
     def run(I):
-        fs = I.construct(ClsRef("fakesnow.instance.FakeSnow"), [], {}, None)
+        fs = I.construct(ClsRef("fakesnow.instance.FakeSnow"), [], {"create_database_on_connect": Const(pt.create_database),
+                                                                   "create_schema_on_connect": Const(pt.create_schema)}, None)
         I.effect("instance-ready", fs)
         return I.call(I.getattr(fs, "connect"), [Sym("database", truthy=True, typ="str"), Sym("schema", truthy=True, typ="str")], {}, None)
 
@@ -99,14 +110,14 @@ def rule_check_then_create(ctx):
                 locked = any(isinstance(h, Obj) and h.kind == "lock" and id(h) in shared_locks for h in held)
                 ok = locked and last_check_inside.get("locked", False)
                 site = e[2]
-                ctx.ob("C19.a", f"{e[1]} after its existence check runs under the instance's lock", ok,
+                ctx.ob("C19.a", f"{where}: {e[1]} after its existence check runs under the instance's lock", ok,
                        f"fakesnow/conn.py:{getattr(site, 'lineno', 0)}")
                 if not ok:
                     ctx.violation("C19.a", "conn", "FakeSnowflakeConnection.__init__", site, f"fakesnow/conn.py:{getattr(site, 'lineno', 0)}",
-                                  f"`{e[1]}` is issued after an existence check without holding a lock shared by the instance's connections "
+                                  f"with {where}: `{e[1]}` is issued after an existence check without holding a lock shared by the instance's connections "
                                   f"(check and create in one critical section): two threads connecting to the same new database both pass the "
                                   f"check and the second {e[1].upper()} fails")
-    ctx.floor("check-then-create sites on the auto-create path", n, 2)
+    return n
 
 
 def rule_shared_state(ctx):
@@ -139,7 +150,12 @@ def rule_shared_state(ctx):
         ctx.violation("C19.c", mname, "<module>", m.const_stmts[k], m.loc(m.const_stmts[k]),
                       f"module-level mutable object `{mname}.{k}` is written at run time: it is shared by all connections and threads "
                       f"without synchronisation")
-    # module-level AST constants are never mutated in place
+    rule_constant_nodes(ctx, "C19.c")
+
+
+def rule_constant_nodes(ctx, rule_id):
+    """module-level AST constants (the success no-op) are never mutated in place on any statement-kind trace"""
+    prog = ctx.prog
     n = 0
     for kind in all_kinds():
         for tr in traces(prog, kind):
@@ -148,12 +164,14 @@ def rule_shared_state(ctx):
                     n += 1
                     if getattr(e[1], "shared", False):
                         site = e[4] if len(e) > 4 else None
-                        ctx.ob("C19.c", f"{kind}: store through module-level AST constant {e[1].name}", False, "fakesnow/transforms.py")
-                        ctx.violation("C19.c", "transforms", "<stage>", site if site is not None else f"{e[1].name}.args[{e[2]}]",
+                        ctx.ob(rule_id, f"{kind}: store through module-level AST constant {e[1].name}", False, "fakesnow/transforms.py")
+                        ctx.violation(rule_id, "transforms", "<stage>", site if site is not None else f"{e[1].name}.args[{e[2]}]",
                                       f"fakesnow/transforms.py:{getattr(site, 'lineno', 0)}",
                                       f"while rewriting {kind} the module-level AST constant `{e[1].name}` is modified in place (key `{e[2]}`): "
-                                      f"the change leaks into every later statement of every session (and races between threads); copy it first")
-    ctx.ob("C19.c", f"no in-place store through a module-level AST constant on any of {n} node stores", True, "fakesnow/transforms.py")
+                                      f"the change leaks into every later statement of every session that executes that constant — the "
+                                      f"statements matched by nop_regexes included — (and races between threads); copy it first")
+    ctx.ob(rule_id, f"no in-place store through a module-level AST constant on any of {n} node stores", True, "fakesnow/transforms.py")
+    ctx.floor(f"{rule_id} node stores inspected", n, 12)
 
 
 RULES = [
